@@ -350,7 +350,7 @@ def oracle(c, obs):
                         name, sorted(W.items()), "savepoint" if hstack else "start of the transaction", sorted(exp_rows.items()))
         if failed_at is not None and failed_at != i and code == 0 and (k == COMMIT or k == TCOMMIT and op[1] in hstack):
             return "%s: commit succeeded although the flush failure of step %d was not rolled back" % (name, failed_at)
-        if failed_at is not None and failed_at != i and k in (FLUSH, FLUSHF, NESTED) and code == 0 and any(x[0] == 1 or x[0] in (2, 3) and (x[4] or x[5]) for x in prev[1]):
+        if failed_at is not None and failed_at != i and k in (FLUSH, FLUSHF, NESTED) and code == 0 and any(x[0] == 1 or x[0] == 2 and (x[4] or x[5]) for x in prev[1]):
             return "%s: flush succeeded although the flush failure of step %d was not rolled back" % (name, failed_at)
         if k in (FLUSH, FLUSHF) and code == 0 and prev is not None and failed_at is None:
             L = B._logical(prev)
